@@ -836,6 +836,7 @@ int main(int argc, char ** argv)
   int jobs = 16;
   Opts o;
   double per_cfg_timeout = 900;
+  double global_deadline = 1e18;
   for (int i = 1; i < argc; i++) {
     std::string a = argv[i];
     auto nxt = [&]() { return std::string(i + 1 < argc ? argv[++i] : ""); };
@@ -855,6 +856,7 @@ int main(int argc, char ** argv)
     else if (a == "--etol") o.etol = atof(nxt().c_str());
     else if (a == "--litdir") o.litdir = nxt();
     else if (a == "--calls") o.calls = true;
+    else if (a == "--global-deadline") global_deadline = atof(nxt().c_str());
     else if (a == "--horizon") HORIZON = atol(nxt().c_str());
     else if (a == "--timeout") per_cfg_timeout = atof(nxt().c_str());
     else if (a == "--replay") replay = nxt();
@@ -948,15 +950,26 @@ int main(int argc, char ** argv)
     fflush(fo);
     done++;
   };
+  double t_start = Explorer::now();
   while (done < cfgs.size()) {
     while (running.size() < (size_t)jobs && next < cfgs.size()) {
+      double left = global_deadline - (Explorer::now() - t_start);
+      if (left < 5) {
+        // global deadline: the remaining configurations are reported as not explored (the run is then not exhaustive)
+        fprintf(fo, "{\"config\":%s,\"key\":%s,\"skipped\":true}\n", cfg_json(cfgs[next]).c_str(), jstr(cfgs[next].key()).c_str());
+        next++;
+        done++;
+        continue;
+      }
+      Opts oc = o;
+      oc.deadline = std::min(o.deadline, left);
       int pfd[2];
       if (pipe(pfd)) return 2;
       pid_t p = fork();
       if (p == 0) {
         close(pfd[0]);
         alarm((unsigned)per_cfg_timeout);
-        std::string r = run_config(cfgs[next], o);
+        std::string r = run_config(cfgs[next], oc);
         size_t off = 0;
         while (off < r.size()) {
           ssize_t n = write(pfd[1], r.data() + off, r.size() - off);
